@@ -68,6 +68,11 @@ CHECKS = {
             "Random ASTs (depth<=4, <=30 nodes) in both accepted spellings are executed by the real interpreter and every trace event (command, condition evaluation with its index, loop binding) is compared in order.",
             "vp_cond's flock'ed cursor gives each evaluation the next pre-programmed status; exit status only compared when the last event is a plain command",
             "DESIGN.md 3 C14"),
+    "C15": ("exploration",
+            "runtime monitoring: probe observers for \"$0\" \"$1\" \"${2}\" \"$@\" and $? placed in the script, in function bodies and in sourced files; marker observers; process exit status; oracle = reference model of the documented semantics run on the same structure",
+            "Generated scripts with arguments (incl. blanks and specials), functions in both header spellings, source chains to depth 3, exit / set -e / failing commands at random positions; the whole ordered event list and the exit status are compared.",
+            "model in lib/c15.py; the state right after an if none of whose branches ran is not judged",
+            "DESIGN.md 3 C15"),
 }
 
 NOT_YET = "check not built yet (work in progress); runtime monitoring is applicable and planned, see DESIGN.md section 3"
